@@ -327,6 +327,22 @@ func unsupportedNote() string {
 	return "the code under test uses constructs the simulator does not steer: " + strings.Join(parts, "; ")
 }
 
+// probePrint is what the determinism probe compares. With a single task nothing depends on the step counter (no
+// schedule, no step-timed edit), and a comparator that the standard library calls a data-dependent number of times
+// (a sort over keys it iterated in Go's random order) changes the count without changing anything observable: there
+// the count is left out. With several tasks the steps are the schedule: they stay in.
+func probePrint(r *h.Result) string {
+	f := fingerprint(r)
+	if r.Stats["task_switches"] == 0 && len(r.Switches) == 0 {
+		if i := strings.Index(f, " steps="); i >= 0 {
+			if j := strings.Index(f[i+1:], " "); j >= 0 {
+				f = f[:i] + f[i+1+j:]
+			}
+		}
+	}
+	return f
+}
+
 func clip(s string, n int) string {
 	if len(s) <= n {
 		return s
@@ -456,7 +472,7 @@ func supervise(prop, tier string) int {
 		defer mu.Unlock()
 		done++
 		if res.Run < probeRuns {
-			fps[res.Run] = fingerprint(res)
+			fps[res.Run] = probePrint(res)
 		}
 		for k, v := range res.Stats {
 			stats[k] += v
@@ -563,7 +579,7 @@ func supervise(prop, tier string) int {
 				continue
 			}
 			stats["determinism_probe_runs"]++
-			if got := fingerprint(res); got != want {
+			if got := probePrint(res); got != want {
 				probeEr = append(probeEr, fmt.Sprintf("nondeterministic execution of run %d:\n  first:  %s\n  second: %s", run, clip(want, 300), clip(got, 300)))
 			}
 		}
